@@ -196,9 +196,10 @@ class DataContainer(_BaseDataContainer):
             for attr in self._attr.values():
                 attr._expand(len(other))
         elif isinstance(other,DataContainer):
+            n_new = len(other._data) # computed first: `other` may be `self`
             self._data += other._data
             for attr in self._attr.values():
-                attr._expand(other.n_elem)
+                attr._expand(n_new)
         else:
             raise Exception("Could not append data container of type {} onto an attribute".format(type(other)))
         return self
@@ -298,10 +299,11 @@ class CornerDataContainer(_BaseDataContainer):
             for attr in self._attr.values():
                 attr._expand(len(other))
         elif isinstance(other, CornerDataContainer):
+            n_new = len(other._elem) # computed first: `other` may be `self`
             self._elem += other._elem
             self._adj += other._adj
             for attr in self._attr.values():
-                attr._expand(other.n_elem)
+                attr._expand(n_new)
         else:
             raise Exception("Could not append data container of type {} onto an attribute".format(type(other)))
         return self
